@@ -1576,7 +1576,7 @@ class TermAnalysis(Analysis):
             r = self.inline(e, t, st)
             if r is not None:
                 self._inlined_calls.add(id(e))
-                return r
+                return self._outline(r)
         if t[0] == "call" and t[1][0] == "dyn" and t[1][1][0] == "localfunc" and t[1][1][1] in self._local_funcs:
             # a nested function that closes over nothing of the enclosing function is a helper like any other
             lf = self._local_fn(t[1][1][1])
@@ -1588,24 +1588,25 @@ class TermAnalysis(Analysis):
 
     # functions of the package whose one-expression body the rules know by the function's name: a term that *is* that body (the call was
     # written out, or reached through a new helper that was seen through) is the function applied to the same arguments
-    OUTLINED = ("msmart.lan.Security.sign",)
+    OUTLINED = ("msmart.lan.Security.sign", "msmart.frame.Frame.checksum")
 
     def _outline(self, t: Term) -> Term:
-        if not (isinstance(t, tuple) and t and t[0] == "call"):
+        if not (isinstance(t, tuple) and t and t[0] in ("call", "bin")):
             return t
         for q in self.OUTLINED:
             f = self.prog.funcs.get(q)
-            if f is None or self.fn is None or self.fn.qual == q or self.inline_depth > 6:
+            if f is None or self.fn is None or self.fn.qual == q or q in _SUMMARIZING or self.inline_depth > 6:
                 continue
             cache = self.prog.__dict__.setdefault("_outline_templates", {})
             if q not in cache:
                 cache[q] = None
                 try:
-                    cache[q] = summarize(self.prog, f, depth=7).return_term()
+                    cache[q] = summarize(self.prog, f).return_term()
                 except (AnalysisError, RecursionError):
                     pass
             tmpl = cache[q]
-            if tmpl is None or tmpl[0] != "call" or tmpl[1][0] != t[1][0] or (t[1][0] == "meth" and tmpl[1][2] != t[1][2]):
+            if tmpl is None or tmpl[0] != t[0] or (t[0] == "call" and (tmpl[1][0] != t[1][0] or (t[1][0] == "meth" and tmpl[1][2] != t[1][2]))) \
+                    or (t[0] == "bin" and tmpl[1] != t[1]):
                 continue
             holes = [p for p in f.params if not (f.kind in ("method", "classmethod") and p == f.params[0])]
             bind = {}
@@ -2245,15 +2246,27 @@ def summarize(prog: Program, fn: FuncInfo, args: Optional[Dict[str, Term]] = Non
     if args is None and depth == 0:
         args = unsupplied_switches(prog, fn) or None
     key = (id(prog), fn.qual, fn.kind, tuple(sorted((args or {}).items())), OPTIONS["gate_last"])
+    # (while an outlined function is itself being summarised its body is not folded back into a call of it - also not inside the helpers it
+    # calls; summaries made in that context are kept apart)
+    inside = any(q in _SUMMARIZING for q in TermAnalysis.OUTLINED)
+    if inside:
+        key = key + ("inside-outlined",)
     if key in _CACHE:
         return _CACHE[key]
     ta = TermAnalysis(prog, fn, args)
     ta.inline_depth = depth
     eng = TermEngine(prog, fn, ta)
-    comp = eng.run(ta.initial())
+    _SUMMARIZING.append(fn.qual)
+    try:
+        comp = eng.run(ta.initial())
+    finally:
+        _SUMMARIZING.pop()
     s = Summary(fn, ta, comp, eng.loops)
     _CACHE[key] = s
     return s
+
+
+_SUMMARIZING: List[str] = []
 
 
 def bind_args(fn: FuncInfo, args: Tuple[Term, ...], kwargs=()) -> Dict[str, Term]:
